@@ -419,7 +419,10 @@ class FitOutputManager:
         if parameter_name == "mixing_matrix":
             ax[i].set_title(parameter_name + " " + model.features[index])
         elif parameter_name == "zeta":
-            ax[i].set_title(parameter_name + " " + "event" + " " + str(index + 1))
+            # a single event: State.save writes the only column to `zeta.csv`, without a column index
+            ax[i].set_title(
+                parameter_name + " " + "event" + " " + str((index or 0) + 1)
+            )
         elif parameter_name.startswith("sourcewise"):
             ax[i].set_title(
                 parameter_name.replace("sourcewise_", "")
